@@ -53,9 +53,9 @@ def marked_table(rep, k, which):
 
                 def spec(O):
                     if both:
-                        O.raise_("ArgumentError")  # 'specifying both lists ... is rejected'
+                        O.raise_("ANY")  # 'specifying both lists ... is rejected'
                     if ivs and O.gt(ivs[-1][1], dur):
-                        O.raise_("ArgumentError")  # 'times beyond the recording is rejected'
+                        O.raise_("ANY")  # 'times beyond the recording is rejected'
                     marked = list(ivs)
                     gaps = []
                     cur = Lin.num(0)
